@@ -816,9 +816,12 @@ func main() {
 			for i := 0; i < *cases; i++ {
 				m, proto := *only, "tcp"
 				if m == "all" { // client lives of every mode
-					m = []string{"stop", "peerclose", "localclose", "wake", "zone", "slowtick"}[i%6]
+					m = []string{"stop", "peerclose", "localclose", "wake", "zone", "slowtick", "openclose"}[i%7]
 					if m != "zone" {
 						proto = []string{"tcp", "unix", "udp"}[r.Intn(3)]
+					}
+					if m == "openclose" {
+						proto = "udp"
 					}
 				}
 				hist["client-"+m]++
@@ -843,7 +846,7 @@ func main() {
 			fmt.Fprintf(&b, "case %d\nlife %s %d %d %d %d %s %d %d\n", i, []string{"unix", "tcp", "tcp", "both"}[r.Intn(4)], r.Pick(1, 2, 4), r.Intn(2), ticker, nconn, src, r.Intn(2), r.Intn(3))
 		}
 		// client lives
-		modes := []string{"stop", "peerclose", "localclose", "wake", "zone", "slowtick"}
+		modes := []string{"stop", "peerclose", "localclose", "wake", "zone", "slowtick", "openclose"}
 		for i := 0; i < *cases/2; i++ {
 			m := modes[i%len(modes)]
 			proto := []string{"tcp", "unix", "udp"}[r.Intn(3)]
@@ -851,6 +854,9 @@ func main() {
 			nconn := r.Pick(0, 1, 2, 3, 5)
 			if m == "zone" {
 				proto, nconn = "tcp", r.Pick(2, 3)
+			}
+			if m == "openclose" {
+				proto, nconn = "udp", r.Pick(1, 2, 3)
 			}
 			fmt.Fprintf(&b, "case %d\nclife %s %d %d %d %s %d\n", *cases+i, proto, r.Pick(1, 2, 4), r.Intn(2), nconn, m, r.Intn(2))
 		}
